@@ -65,6 +65,31 @@ class ClassInfo:
         return '<Class %s>' % self.qualname
 
 
+def attr_read_elsewhere(fn_node, attr):
+    """Is self.<attr> read in fn_node other than inside the statement that
+    updates it (`self.x += 1`, `self.x = self.x + n`)?  A statistics counter
+    is written and never otherwise read: it cannot influence anything."""
+    import ast
+    own = set()
+    for n in ast.walk(fn_node):
+        tgt = None
+        if isinstance(n, ast.AugAssign):
+            tgt = n.target
+        elif isinstance(n, ast.Assign) and len(n.targets) == 1:
+            tgt = n.targets[0]
+        if isinstance(tgt, ast.Attribute) and tgt.attr == attr and \
+                isinstance(tgt.value, ast.Name) and tgt.value.id == 'self':
+            for m in ast.walk(n):
+                own.add(id(m))
+    for n in ast.walk(fn_node):
+        if isinstance(n, ast.Attribute) and n.attr == attr and \
+                isinstance(n.ctx, ast.Load) and \
+                isinstance(n.value, ast.Name) and n.value.id == 'self' and \
+                id(n) not in own:
+            return True
+    return False
+
+
 def nested_by_role(fi, name, role=None):
     """A nested function of fi: by its usual name, else by its role (so that
     renaming a closure does not make the anchor vanish).  Roles:
